@@ -97,6 +97,36 @@ XercesWrapperNavigator::mapNode(XalanNode*  theXalanNode) const
 
 
 
+// The XPath data model has no document type node: when the wrapper
+// nodes are found by walking the Xerces DOM, step over it.
+static const DOMNodeType*
+skipDocumentTypeForward(const DOMNodeType*  theNode)
+{
+    while (theNode != 0 &&
+           theNode->getNodeType() == DOMNodeType::DOCUMENT_TYPE_NODE)
+    {
+        theNode = theNode->getNextSibling();
+    }
+
+    return theNode;
+}
+
+
+
+static const DOMNodeType*
+skipDocumentTypeBackward(const DOMNodeType* theNode)
+{
+    while (theNode != 0 &&
+           theNode->getNodeType() == DOMNodeType::DOCUMENT_TYPE_NODE)
+    {
+        theNode = theNode->getPreviousSibling();
+    }
+
+    return theNode;
+}
+
+
+
 XalanNode*
 XercesWrapperNavigator::getParentNode(const DOMNodeType*    theXercesNode) const
 {
@@ -117,7 +147,7 @@ XercesWrapperNavigator::getPreviousSibling(const DOMNodeType*   theXercesNode) c
 {
     if (m_previousSibling == 0)
     {
-        return m_ownerDocument->mapNode(theXercesNode->getPreviousSibling());
+        return m_ownerDocument->mapNode(skipDocumentTypeBackward(theXercesNode->getPreviousSibling()));
     }
     else
     {
@@ -132,7 +162,7 @@ XercesWrapperNavigator::getNextSibling(const DOMNodeType*   theXercesNode) const
 {
     if (m_nextSibling == 0)
     {
-        return m_ownerDocument->mapNode(theXercesNode->getNextSibling());
+        return m_ownerDocument->mapNode(skipDocumentTypeForward(theXercesNode->getNextSibling()));
     }
     else
     {
@@ -147,7 +177,7 @@ XercesWrapperNavigator::getFirstChild(const DOMNodeType*    theXercesNode) const
 {
     if (m_firstChild == 0)
     {
-        return m_ownerDocument->mapNode(theXercesNode->getFirstChild());
+        return m_ownerDocument->mapNode(skipDocumentTypeForward(theXercesNode->getFirstChild()));
     }
     else
     {
@@ -162,7 +192,7 @@ XercesWrapperNavigator::getLastChild(const DOMNodeType*     theXercesNode) const
 {
     if (m_lastChild == 0)
     {
-        return m_ownerDocument->mapNode(theXercesNode->getLastChild());
+        return m_ownerDocument->mapNode(skipDocumentTypeBackward(theXercesNode->getLastChild()));
     }
     else
     {
